@@ -9,7 +9,11 @@ import (
 // TestC14Ctx — scenario S4: concurrent Set/Value/Has/New on one context.
 func TestC14Ctx(t *testing.T) {
 	runBatches(t, "c14ctx", func(t *rapid.T) {
-		c14CtxRun(t)
+		if uni(t, "s4or5", 4) == 0 {
+			c14ChainRun(t)
+		} else {
+			c14CtxRun(t)
+		}
 		count("runs", 1)
 	})
 }
